@@ -107,23 +107,38 @@ func TestExplore(t *testing.T) {
 	boundOverride, _ := strconv.Atoi(env("VBOUND", "-1"))
 	out := os.Getenv("VOUT")
 	var results []WorkerResult
-	var deadline time.Time
+	var deadline, tupleDeadline time.Time
 	if budget > 0 {
 		deadline = time.Now().Add(time.Duration(budget) * time.Second)
 	}
-	for _, p := range sc.AllParams(tier) {
+	all := sc.AllParams(tier)
+	for pi, p := range all {
 		if only != "" && only != p.Name {
 			continue
+		}
+		if budget > 0 {
+			// a tuple may use what is left of the budget except a small reserve for each
+			// tuple still to come, so that one large tuple cannot starve all the later ones
+			reserve := time.Duration(budget) * time.Second / time.Duration(4*len(all)) // a quarter of the budget, spread
+			if reserve > 2*time.Second {
+				reserve = 2 * time.Second
+			}
+			left := time.Until(deadline) - time.Duration(len(all)-pi-1)*reserve
+			share := left
+			if share < 2*time.Second {
+				share = 2 * time.Second
+			}
+			tupleDeadline = time.Now().Add(share)
 		}
 		if boundOverride >= 0 {
 			p.Bound = boundOverride
 		}
 		t0 := time.Now()
 		res := WorkerResult{Scenario: name, Param: p.Name, Bound: p.Bound, Shard: shard, NShards: nshards}
-		ex := &vsched.Explorer{Bound: p.Bound, Shard: shard, NShards: nshards, Deadline: deadline}
+		ex := &vsched.Explorer{Bound: p.Bound, Shard: shard, NShards: nshards, Deadline: tupleDeadline}
 		cfg := sc.Cfg
 		cfg.Desc = p.V["desc"] == 1
-		ex.Run = func(prefix []int, fps []string) *vsched.Exec {
+		ex.Run = func(prefix []int, fps []uint64) *vsched.Exec {
 			return vsched.RunOnce(t, cfg, prefix, fps, func(s *vsched.Sched) { sc.Body(s, p) })
 		}
 		ex.OnExec = func(x *vsched.Exec) bool {
@@ -264,7 +279,7 @@ func TestRegressions(t *testing.T) {
 		var bad []string
 		n := 0
 		ex := &vsched.Explorer{Bound: c.bound}
-		ex.Run = func(prefix []int, fps []string) *vsched.Exec {
+		ex.Run = func(prefix []int, fps []uint64) *vsched.Exec {
 			return vsched.RunOnce(t, cfg, prefix, fps, func(s *vsched.Sched) { sc.Body(s, *prm) })
 		}
 		ex.OnExec = func(x *vsched.Exec) bool {
